@@ -36,7 +36,20 @@ def xform(sk, *xs):
     S = sk["S"]
     if sk.get("box"):
         nsym = box_size(sk["box"]) - len(sk.get("fixed") or [])
-        f, pos = build_box(sk["box"], list(xs[:nsym]) + list(sk.get("fixed") or []))
+        vals = list(xs[:nsym]) + list(sk.get("fixed") or [])
+        if sk.get("canon"):
+            # canonical tree: a zero cell is *absent* (and an all-zero row has no sub-fiber), as fromUncompressed builds it
+            def nest_(dims, k):
+                if len(dims) == 1:
+                    return vals[k:k + dims[0]], k + dims[0]
+                out = []
+                for _ in range(dims[0]):
+                    sub, k = nest_(dims[1:], k)
+                    out.append(sub)
+                return out, k
+            f = Fiber.fromUncompressed(nest_(sk["box"], 0)[0])
+        else:
+            f, pos = build_box(sk["box"], vals)
         pos = nsym
     else:
         f, pos, _ = build_tree(sk["tree"], xs)
@@ -123,7 +136,7 @@ def xform(sk, *xs):
     return True
 
 
-def _mk(tree, name, opt, box=None, S=4, noshape=False, fixed=None):
+def _mk(tree, name, opt, box=None, S=4, noshape=False, fixed=None, canon=False):
     if box:
         ps = names("v", box_size(box) - len(fixed or []))
         pre = []
@@ -140,9 +153,11 @@ def _mk(tree, name, opt, box=None, S=4, noshape=False, fixed=None):
         pre = pre + ["%d <= p0" % S]
     label = name + "(" + ",".join("%s=%s" % kv for kv in sorted(opt.items())) + ")"
     ob = Ob("%s%s/%s" % ("noshape/" if noshape else "", str(box or tree).replace(" ", ""), label.replace(" ", "")), "xform",
-            dict(tree=tree, xf=name, opt=opt, depth=d, box=box, S=S, noshape=noshape, fixed=fixed), ps + an, pre)
+            dict(tree=tree, xf=name, opt=opt, depth=d, box=box, S=S, noshape=noshape, fixed=fixed, canon=canon), ps + an, pre)
     if fixed:
         ob.name += "/fixed" + "".join(map(str, fixed))
+    if canon:
+        ob.name += "/canonical"
     if not box and opt.get("depth", 0) >= 1 and name != "updateCoords_inc" and name != "updateCoords_dec":
         ob.tags["alldefault_sub"] = alldefault_sub_expr(tree, ps)
     if not box and noshape and name == "flatten_unflatten":
@@ -188,11 +203,16 @@ def obligations(tier):
         if q:
             obs.append(_mk(None, "swizzleRanks", {"perm": list(perm)}, box=[2, 2, 2], S=2, fixed=[5, 0, 0, 7]))
             obs.append(_mk(None, "swizzleRanks", {"perm": list(perm)}, box=[2, 2, 2], S=2, fixed=[0, 0, 3, 0]))
+            # sparse (canonical) boxes: consecutive points of the new order that differ at an upper level and agree at a lower one
+            obs.append(_mk(None, "swizzleRanks", {"perm": list(perm)}, box=[2, 2, 2], S=2, fixed=[0, 0, 0, 7], canon=True))
+            obs.append(_mk(None, "swizzleRanks", {"perm": list(perm)}, box=[2, 2, 2], S=2, fixed=[0, 3, 0, 0], canon=True))
         else:
             obs.append(_mk(None, "swizzleRanks", {"perm": list(perm)}, box=[2, 2, 2], S=2))
+            obs.append(_mk(None, "swizzleRanks", {"perm": list(perm)}, box=[2, 2, 2], S=2, canon=True))
     if not q:
         for perm in itertools.permutations(range(3)):
             obs.append(_mk(None, "swizzleRanks", {"perm": list(perm)}, box=[3, 2, 2], S=3))
+            obs.append(_mk(None, "swizzleRanks", {"perm": list(perm)}, box=[2, 2, 3], S=3, fixed=[0, 0, 4, 0, 5, 0], canon=True))
     # estimated shapes
     for tree in ([[1, 1], [1, 0]] if q else t2):
         for name, opt in ([("flatten_unflatten", {}), ("swapRanks", {}), ("flattenRanks", {})] if q else xf2(tier)):
